@@ -55,3 +55,37 @@ def impl(op, a, ctx):
     F = Fields(a)
     tx = line_to_tx(F); i = F.nat(); code = F.toks(); ht = F.nat(); F.done()
     return 'ok ' + hx(tx.get_transaction_digest(i, Script(code), ht))
+
+
+# ---- real-chain signature oracle (appended to the generated stream)
+from harness import fxsig as _S
+_base_cases = cases
+_base_impl = impl
+
+
+def cases(ctx):  # noqa: F811
+    yield from _base_cases(ctx)
+    spends = _S.pick(ctx.rng, _S.p2pkh_spends(), ctx.n(60), ctx.thorough)
+    for name, k, j, sig, pub in spends:
+        ht = sig[-1]
+        tx = _S.lib_tx(name, k)
+        code = ['OP_DUP', 'OP_HASH160', _S.h160(pub).hex(), 'OP_EQUALVERIFY', 'OP_CHECKSIG']
+        ctx.count('fixture-sig-' + name); ctx.count(f'fixture-ht-{ht:02x}')
+        def spec(ans, tx=tx, j=j, code=code, ht=ht):
+            return (f's:dig_legacy {tx_to_line(tx)} {j} {toks_str(code)} {ht}', ans.replace(' chain-signature-verifies', ''))
+        yield Case(f'fx_sig_legacy {name} {k} {j}', 's', nontrivial=True, tag='fixture-sig', spec=spec)
+
+
+def impl(op, a, ctx):  # noqa: F811
+    if op != 'fx_sig_legacy':
+        return _base_impl(op, a, ctx)
+    from bitcoinutils.script import Script
+    name, k, j = a[0], int(a[1]), int(a[2])
+    t = _S.FX.block(name)['txs'][k]
+    sig, pub = _S.is_push_only_two(t['ins'][j]['script'])
+    rs = _S.lax_der(sig[:-1])
+    tx = _S.lib_tx(name, k)
+    code = Script(['OP_DUP', 'OP_HASH160', _S.h160(pub).hex(), 'OP_EQUALVERIFY', 'OP_CHECKSIG'])
+    d = tx.get_transaction_digest(j, code, sig[-1])
+    ok = rs is not None and _S.secp_verify(pub, d, *rs)
+    return f'ok {hx(d)}' + (' chain-signature-verifies' if ok else ' CHAIN-SIGNATURE-DOES-NOT-VERIFY')
